@@ -655,10 +655,12 @@ Qed.
 
 Theorem step_inv s o : Inv s -> Inv (fst (step s o)).
 Proof.
-  intros H. destruct o as [|i data|i]; cbn [step]; (eapply Inv_skeq; [|apply deliver_skeq]).
-  - apply connect_inv. exact H.
-  - apply handle_read_inv. exact H.
-  - apply close_inv. exact H.
+  intros H. destruct o as [|i data|i|i n sd]; cbn [step].
+  - eapply Inv_skeq; [|apply deliver_skeq]. apply connect_inv. exact H.
+  - eapply Inv_skeq; [|apply deliver_skeq]. apply handle_read_inv. exact H.
+  - eapply Inv_skeq; [|apply deliver_skeq]. apply close_inv. exact H.
+  - destruct (alive (get s i) && (st (get s i) =? Bridged)); (eapply Inv_skeq; [|apply deliver_skeq]);
+      [apply handle_read_inv; exact H | exact H].
 Qed.
 
 Definition run_ops (s : state) (ops : list op) : state := fold_left (fun s o => fst (step s o)) ops s.
@@ -670,7 +672,10 @@ Definition Flushed (s : state) : Prop := forall k, wbuf (get s k) = [].
 Lemma nth_map_wbuf_empty l k : wbuf (nth k (map (fun c => with_wbuf c []) l) gone) = [].
 Proof. revert k. induction l as [|x r IH]; intros [|k]; cbn [map nth]; try reflexivity. apply IH. Qed.
 Lemma step_flushed s o : Flushed (fst (step s o)).
-Proof. intros k. destruct o; cbn [step deliver fst]; unfold get; cbn [clients]; apply nth_map_wbuf_empty. Qed.
+Proof.
+  intros k. destruct o as [|i d|i|i n sd]; cbn [step]; [| | |destruct (alive (get s i) && (st (get s i) =? Bridged))];
+    cbn [deliver fst]; unfold get; cbn [clients]; apply nth_map_wbuf_empty.
+Qed.
 Lemma init_flushed : Flushed init.
 Proof. intros k. unfold get. cbn. destruct k; reflexivity. Qed.
 
